@@ -669,8 +669,7 @@ Traversal:
                 // whereas foo[*] can support _any_ traversal.
                 marker := p.Read() // eat star
                 trav := make(hcl.Traversal, 0, 1)
-                var firstRange, lastRange hcl.Range
-                firstRange = p.NextRange()
+                var lastRange hcl.Range
                 lastRange = marker.Range
                 for p.Peek().Type == TokenDot {
                     dot := p.Read()
@@ -753,7 +752,8 @@ Traversal:
                     travExpr = &RelativeTraversalExpr{
                         Source:    itemExpr,
                         Traversal: trav,
-                        SrcRange:  hcl.RangeBetween(firstRange, lastRange),
+                        // from the splat marker (the source of this traversal) to the last step
+                        SrcRange: hcl.RangeBetween(itemExpr.SrcRange, lastRange),
                     }
                 }
 
